@@ -372,176 +372,305 @@ func writerCase(out *bufio.Writer, k Kind, always, rep bool, field int32, vals [
 
 // ---- S-readers ----------------------------------------------------------------------
 
-// callReader runs dec.[Repeated]K(field, &v) once on a decoder positioned on data; returns value list
-func callReader(dec *picobuf.Decoder, k Kind, rep bool, field int32, init []*Val) []*Val {
-	f := picobuf.FieldNumber(field)
-	var out []*Val
-	switch k {
-	case KBool:
-		if rep {
-			var xs []bool
-			for _, v := range init {
-				xs = append(xs, v.I.Sign() != 0)
-			}
-			dec.RepeatedBool(f, &xs)
-			for _, x := range xs {
-				out = append(out, vInt(int64(b2i(x))))
-			}
-		} else {
-			x := init[0].I.Sign() != 0
-			dec.Bool(f, &x)
-			out = append(out, vInt(int64(b2i(x))))
-		}
-	case KInt32, KSint32, KSfixed32:
-		var xs []int32
-		for _, v := range init {
-			xs = append(xs, int32(v.I.Int64()))
-		}
-		if rep {
-			switch k {
-			case KInt32:
-				dec.RepeatedInt32(f, &xs)
-			case KSint32:
-				dec.RepeatedSint32(f, &xs)
-			default:
-				dec.RepeatedSfixed32(f, &xs)
-			}
-		} else {
-			switch k {
-			case KInt32:
-				dec.Int32(f, &xs[0])
-			case KSint32:
-				dec.Sint32(f, &xs[0])
-			default:
-				dec.Sfixed32(f, &xs[0])
-			}
-		}
-		for _, x := range xs {
-			out = append(out, vInt(int64(x)))
-		}
-	case KInt64, KSint64, KSfixed64:
-		var xs []int64
-		for _, v := range init {
-			xs = append(xs, v.I.Int64())
-		}
-		if rep {
-			switch k {
-			case KInt64:
-				dec.RepeatedInt64(f, &xs)
-			case KSint64:
-				dec.RepeatedSint64(f, &xs)
-			default:
-				dec.RepeatedSfixed64(f, &xs)
-			}
-		} else {
-			switch k {
-			case KInt64:
-				dec.Int64(f, &xs[0])
-			case KSint64:
-				dec.Sint64(f, &xs[0])
-			default:
-				dec.Sfixed64(f, &xs[0])
-			}
-		}
-		for _, x := range xs {
-			out = append(out, vInt(x))
-		}
-	case KUint32, KFixed32:
-		var xs []uint32
-		for _, v := range init {
-			xs = append(xs, uint32(v.I.Uint64()))
-		}
-		if rep {
-			if k == KUint32 {
-				dec.RepeatedUint32(f, &xs)
-			} else {
-				dec.RepeatedFixed32(f, &xs)
-			}
-		} else {
-			if k == KUint32 {
-				dec.Uint32(f, &xs[0])
-			} else {
-				dec.Fixed32(f, &xs[0])
-			}
-		}
-		for _, x := range xs {
-			out = append(out, vUint(uint64(x)))
-		}
-	case KUint64, KFixed64:
-		var xs []uint64
-		for _, v := range init {
-			xs = append(xs, v.I.Uint64())
-		}
-		if rep {
-			if k == KUint64 {
-				dec.RepeatedUint64(f, &xs)
-			} else {
-				dec.RepeatedFixed64(f, &xs)
-			}
-		} else {
-			if k == KUint64 {
-				dec.Uint64(f, &xs[0])
-			} else {
-				dec.Fixed64(f, &xs[0])
-			}
-		}
-		for _, x := range xs {
-			out = append(out, vUint(x))
-		}
-	case KFloat:
-		var xs []float32
-		for _, v := range init {
-			xs = append(xs, math.Float32frombits(uint32(v.I.Uint64())))
-		}
-		if rep {
-			dec.RepeatedFloat(f, &xs)
-		} else {
-			dec.Float(f, &xs[0])
-		}
-		for _, x := range xs {
-			out = append(out, vUint(uint64(math.Float32bits(x))))
-		}
-	case KDouble:
-		var xs []float64
-		for _, v := range init {
-			xs = append(xs, math.Float64frombits(v.I.Uint64()))
-		}
-		if rep {
-			dec.RepeatedDouble(f, &xs)
-		} else {
-			dec.Double(f, &xs[0])
-		}
-		for _, x := range xs {
-			out = append(out, vUint(math.Float64bits(x)))
-		}
-	case KString:
-		var xs []string
-		for _, v := range init {
-			xs = append(xs, string(v.B))
-		}
-		if rep {
-			dec.RepeatedString(f, &xs)
-		} else {
-			dec.String(f, &xs[0])
-		}
-		for _, x := range xs {
-			out = append(out, vBytes([]byte(x)))
-		}
-	case KBytes:
-		var xs [][]byte
-		for _, v := range init {
-			xs = append(xs, v.B)
-		}
-		if rep {
-			dec.RepeatedBytes(f, &xs)
-		} else {
-			dec.Bytes(f, &xs[0])
-		}
-		for _, x := range xs {
-			out = append(out, vBytes(x))
+// dest holds the typed destination variables of one reader, as a generated message struct holds its fields: they
+// persist from one call to the next (capacity and aliasing included)
+type dest struct {
+	k     Kind
+	bools []bool
+	i32   []int32
+	i64   []int64
+	u32   []uint32
+	u64   []uint64
+	f32   []float32
+	f64   []float64
+	strs  []string
+	byts  [][]byte
+}
+
+func newDest(k Kind, init []*Val) *dest {
+	d := &dest{k: k}
+	for _, v := range init {
+		switch k {
+		case KBool:
+			d.bools = append(d.bools, v.I.Sign() != 0)
+		case KInt32, KSint32, KSfixed32:
+			d.i32 = append(d.i32, int32(v.I.Int64()))
+		case KInt64, KSint64, KSfixed64:
+			d.i64 = append(d.i64, v.I.Int64())
+		case KUint32, KFixed32:
+			d.u32 = append(d.u32, uint32(v.I.Uint64()))
+		case KUint64, KFixed64:
+			d.u64 = append(d.u64, v.I.Uint64())
+		case KFloat:
+			d.f32 = append(d.f32, math.Float32frombits(uint32(v.I.Uint64())))
+		case KDouble:
+			d.f64 = append(d.f64, math.Float64frombits(v.I.Uint64()))
+		case KString:
+			d.strs = append(d.strs, string(v.B))
+		case KBytes:
+			d.byts = append(d.byts, v.B)
 		}
 	}
+	return d
+}
+
+// read runs dec.[Repeated]K(field, &v) once
+func (d *dest) read(dec *picobuf.Decoder, rep bool, field int32) {
+	f := picobuf.FieldNumber(field)
+	switch d.k {
+	case KBool:
+		if rep {
+			dec.RepeatedBool(f, &d.bools)
+		} else {
+			dec.Bool(f, &d.bools[0])
+		}
+	case KInt32:
+		if rep {
+			dec.RepeatedInt32(f, &d.i32)
+		} else {
+			dec.Int32(f, &d.i32[0])
+		}
+	case KSint32:
+		if rep {
+			dec.RepeatedSint32(f, &d.i32)
+		} else {
+			dec.Sint32(f, &d.i32[0])
+		}
+	case KSfixed32:
+		if rep {
+			dec.RepeatedSfixed32(f, &d.i32)
+		} else {
+			dec.Sfixed32(f, &d.i32[0])
+		}
+	case KInt64:
+		if rep {
+			dec.RepeatedInt64(f, &d.i64)
+		} else {
+			dec.Int64(f, &d.i64[0])
+		}
+	case KSint64:
+		if rep {
+			dec.RepeatedSint64(f, &d.i64)
+		} else {
+			dec.Sint64(f, &d.i64[0])
+		}
+	case KSfixed64:
+		if rep {
+			dec.RepeatedSfixed64(f, &d.i64)
+		} else {
+			dec.Sfixed64(f, &d.i64[0])
+		}
+	case KUint32:
+		if rep {
+			dec.RepeatedUint32(f, &d.u32)
+		} else {
+			dec.Uint32(f, &d.u32[0])
+		}
+	case KFixed32:
+		if rep {
+			dec.RepeatedFixed32(f, &d.u32)
+		} else {
+			dec.Fixed32(f, &d.u32[0])
+		}
+	case KUint64:
+		if rep {
+			dec.RepeatedUint64(f, &d.u64)
+		} else {
+			dec.Uint64(f, &d.u64[0])
+		}
+	case KFixed64:
+		if rep {
+			dec.RepeatedFixed64(f, &d.u64)
+		} else {
+			dec.Fixed64(f, &d.u64[0])
+		}
+	case KFloat:
+		if rep {
+			dec.RepeatedFloat(f, &d.f32)
+		} else {
+			dec.Float(f, &d.f32[0])
+		}
+	case KDouble:
+		if rep {
+			dec.RepeatedDouble(f, &d.f64)
+		} else {
+			dec.Double(f, &d.f64[0])
+		}
+	case KString:
+		if rep {
+			dec.RepeatedString(f, &d.strs)
+		} else {
+			dec.String(f, &d.strs[0])
+		}
+	case KBytes:
+		if rep {
+			dec.RepeatedBytes(f, &d.byts)
+		} else {
+			dec.Bytes(f, &d.byts[0])
+		}
+	}
+}
+
+// vals copies the current contents out
+func (d *dest) vals() []*Val {
+	var out []*Val
+	for _, x := range d.bools {
+		out = append(out, vInt(int64(b2i(x))))
+	}
+	for _, x := range d.i32 {
+		out = append(out, vInt(int64(x)))
+	}
+	for _, x := range d.i64 {
+		out = append(out, vInt(x))
+	}
+	for _, x := range d.u32 {
+		out = append(out, vUint(uint64(x)))
+	}
+	for _, x := range d.u64 {
+		out = append(out, vUint(x))
+	}
+	for _, x := range d.f32 {
+		out = append(out, vUint(uint64(math.Float32bits(x))))
+	}
+	for _, x := range d.f64 {
+		out = append(out, vUint(math.Float64bits(x)))
+	}
+	for _, x := range d.strs {
+		out = append(out, vBytes([]byte(x)))
+	}
+	for _, x := range d.byts {
+		out = append(out, vBytes(x))
+	}
 	return out
+}
+
+// callReader runs dec.[Repeated]K(field, &v) once on a decoder positioned on data; returns value list
+func callReader(dec *picobuf.Decoder, k Kind, rep bool, field int32, init []*Val) []*Val {
+	d := newDest(k, init)
+	d.read(dec, rep, field)
+	return d.vals()
+}
+
+// readerSeqCase: one decoder over several records, read by a sequence of calls whose destination variables persist from
+// call to call, as the fields of a message do while its Decode method runs (and while a message is decoded into twice).
+// Every step is also a stand-alone reader row (remaining input, destination before, state after); at the end no value
+// observed earlier may have changed behind the caller's back and the input must be what it was.
+func readerSeqCase(out *bufio.Writer, r *rng) {
+	type slot struct {
+		k     Kind
+		rep   bool
+		field int32
+		d     *dest
+		seen  string
+	}
+	var slots []*slot
+	ns := 1 + r.intn(3)
+	for i := 0; i < ns; i++ {
+		k := Kind(r.intn(int(KBytes) + 1))
+		if r.intn(3) == 0 {
+			k = []Kind{KBytes, KFixed32, KSfixed32, KFloat, KFixed64, KDouble, KString}[r.intn(7)]
+		}
+		sl := &slot{k: k, rep: r.intn(2) == 0, field: int32(i + 1)}
+		var init []*Val
+		if !sl.rep {
+			init = []*Val{zeroValOf(k)}
+		}
+		sl.d = newDest(k, init)
+		slots = append(slots, sl)
+	}
+	value := func(k Kind) *Val {
+		alpha := scalarAlphabet(k)
+		if k == KBytes || k == KString {
+			// lengths below and above those already stored, so that a later value fits where an earlier one lies and reaches past it
+			b := make([]byte, []int{0, 1, 2, 3, 5, 9, 17}[r.intn(7)])
+			for i := range b {
+				b[i] = byte('a' + r.intn(26))
+			}
+			return vBytes(b)
+		}
+		return alpha[r.intn(len(alpha))]
+	}
+	var input []byte
+	nrec := 2 + r.intn(6)
+	for i := 0; i < nrec; i++ {
+		sl := slots[r.intn(len(slots))]
+		packable := sl.k != KString && sl.k != KBytes
+		switch {
+		case sl.rep && packable && r.intn(2) == 0:
+			var p []byte
+			for j := []int{0, 1, 2, 3, 5, 9}[r.intn(6)]; j > 0; j-- {
+				p = append(p, refPayload(sl.k, value(sl.k))...)
+			}
+			input = protowire.AppendBytes(protowire.AppendTag(input, protowire.Number(sl.field), protowire.BytesType), p)
+		case r.intn(12) == 0:
+			input = append(protowire.AppendTag(input, 7, protowire.VarintType), 1) // a field nobody reads: the sequence stops there
+		default:
+			input = append(protowire.AppendTag(input, protowire.Number(sl.field), wireOfKind(sl.k)), refPayload(sl.k, value(sl.k))...)
+		}
+	}
+	work := append([]byte{}, input...)
+	verdict := "stable"
+	steps := 0
+	func() {
+		defer func() {
+			if rr := recover(); rr != nil {
+				verdict = "PANIC"
+			}
+		}()
+		dec := picobuf.NewDecoder(work)
+		dec.VerifInit()
+		off := 0
+		for steps < 64 {
+			pf, pw, rem := dec.VerifState()
+			if pf < 0 {
+				break
+			}
+			var sl *slot
+			for _, c := range slots {
+				if c.field == pf {
+					sl = c
+				}
+			}
+			if sl == nil {
+				break
+			}
+			_ = pw
+			before := sl.d.vals()
+			sl.d.read(dec, sl.rep, sl.field)
+			pf2, pw2, rem2 := dec.VerifState()
+			es := "-"
+			if ef, em, ok := dec.VerifErrField(); ok {
+				es = fmt.Sprintf("%d:%s", ef, errClassOf(em))
+			}
+			if pf2 < 0 {
+				pw2 = 0
+			}
+			after := sl.d.vals()
+			res := fmt.Sprintf("pf=%d pw=%d rem=%d err=%s val=%s", pf2, pw2, rem2, es, valsString(after))
+			data := input[off:]
+			fmt.Fprintf(out, "reader\t%s\t%d\t%d\tx%s\t%s\t%s\t%s\n", sl.k, b2i(sl.rep), sl.field, hex.EncodeToString(data), valsString(before), res, refReader(sl.k, sl.rep, sl.field, data, before))
+			sl.seen = valsString(after)
+			steps++
+			// every other destination still holds what it held when it was last looked at
+			for _, c := range slots {
+				if c != sl && c.seen != "" && valsString(c.d.vals()) != c.seen && verdict == "stable" {
+					verdict = fmt.Sprintf("call %d on field %d changed the destination of field %d from %s to %s", steps, sl.field, c.field, c.seen, valsString(c.d.vals()))
+				}
+			}
+			if pf2 < 0 || (rem2 == rem && pf2 == pf) {
+				break
+			}
+			off = len(input) - rem2 - len(protowire.AppendVarint(nil, uint64(pf2)<<3|uint64(pw2)))
+		}
+	}()
+	if verdict == "stable" && hex.EncodeToString(work) != hex.EncodeToString(input) {
+		verdict = "input modified: x" + hex.EncodeToString(work)
+	}
+	desc := make([]string, len(slots))
+	for i, sl := range slots {
+		desc[i] = fmt.Sprintf("%d:%s:%d", sl.field, sl.k, b2i(sl.rep))
+	}
+	fmt.Fprintf(out, "rseq\tseq\t%s\tx%s\t%d\t%s\n", strings.Join(desc, ","), hex.EncodeToString(input), steps, verdict)
 }
 
 func errClassOf(msg string) string {
@@ -764,7 +893,10 @@ func init() {
 							if rep {
 								init = nil
 								if r.intn(3) == 0 {
-									init = []*Val{scalarAlphabet(k)[0]}
+									// earlier elements of the list: they stay, whatever the record holds
+									for j := 1 + r.intn(3); j > 0; j-- {
+										init = append(init, scalarAlphabet(k)[r.intn(len(scalarAlphabet(k)))])
+									}
 								}
 							} else if r.intn(3) == 0 {
 								init = []*Val{scalarAlphabet(k)[r.intn(len(scalarAlphabet(k)))]}
@@ -809,6 +941,14 @@ func init() {
 				}()
 				fmt.Fprintf(out, "reader\tenum\t1\t5\tx%s\t(l)\t%s\t%s\n", hex.EncodeToString(data), res, refReader(KInt32, true, 5, data, nil))
 			}
+		}
+		// sequences of calls with persistent destinations
+		nseq := 1500
+		if len(args) > 1 {
+			nseq, _ = strconv.Atoi(args[1])
+		}
+		for i := 0; i < nseq; i++ {
+			readerSeqCase(out, r.fork())
 		}
 		return nil
 	})
@@ -897,8 +1037,26 @@ func init() {
 			back.PicoDecode(dec, 1)
 			fmt.Fprintf(out, "durenc\t%d\tx%s\tx%s\t%d\n", d, hex.EncodeToString(enc.Buffer()), hex.EncodeToString(want), int64(back))
 		}
+		var tsEncodeIn func(sec, nsec int64, zone uint64)
 		tsEncode := func(sec int64, nsec int64) {
-			t := time.Unix(sec, nsec).UTC()
+			if time.Unix(sec, nsec).IsZero() {
+				for z := uint64(0); z < 3; z++ {
+					tsEncodeIn(sec, nsec, z)
+				}
+				return
+			}
+			tsEncodeIn(sec, nsec, uint64(sec+nsec)%3)
+		}
+		tsEncodeIn = func(sec int64, nsec int64, zone uint64) {
+			// the same instant in the three representations callers have: UTC (nil location), Local (what time.Unix and
+			// time.Now return) and a fixed zone; the zero instant is zero in all of them
+			t := time.Unix(sec, nsec)
+			switch zone {
+			case 0:
+				t = t.UTC()
+			case 1:
+				t = t.In(verifZone)
+			}
 			enc := picobuf.NewEncoder()
 			x := picoconv.Timestamp(t)
 			x.PicoEncode(enc, 1)
